@@ -854,8 +854,14 @@ def check_C17(case, B):
         B.emit(key, what, _case_of(case), **kw)
 
     def run(cfg, fmt=SHEXC, shaper=None):
-        sh = shaper or SU.new_shaper(inp, cfg)
-        return sh, B.call(lambda: SU.shex(sh, fmt, 0))
+        box = [shaper]
+
+        def go():
+            if box[0] is None:
+                box[0] = SU.new_shaper(inp, cfg)
+            return SU.shex(box[0], fmt, 0)
+        text = B.call(go)
+        return box[0], text
     try:
         _, t0 = run(base)
         d0 = B.parse(t0)
@@ -1116,8 +1122,9 @@ def check_C15(case, B):
         B.emit(key, what, _case_of(case), **kw)
 
     def local(text):
-        sh = SU.new_shaper({"format": "nt", "text": text}, _merge(selkw, {"inverse_paths": inv}))
-        return U.norm_doc(B.parse(B.call(lambda: SU.shex(sh, SHEXC, 0))))
+        def go():
+            return SU.shex(SU.new_shaper({"format": "nt", "text": text}, _merge(selkw, {"inverse_paths": inv})), SHEXC, 0)
+        return U.norm_doc(B.parse(B.call(go)))
     try:
         lo = local(nt)
     except U.Skipped:
@@ -1131,8 +1138,7 @@ def check_C15(case, B):
             cfg = _merge(selkw, {"inverse_paths": inv, "disable_endpoint_cache": cache_off, "depth_for_building_subgraph": 1,
                                  "track_classes_for_entities_at_last_depth_level": track})
             try:
-                sh = SU.new_shaper({"endpoint": SU.FAKE_ENDPOINT}, cfg)
-                out = U.norm_doc(B.parse(B.call(lambda: SU.shex(sh, SHEXC, 0))))
+                out = U.norm_doc(B.parse(B.call(lambda cfg=cfg: SU.shex(SU.new_shaper({"endpoint": SU.FAKE_ENDPOINT}, cfg), SHEXC, 0))))
             except U.Skipped as exc:
                 emit("C15:endpoint-run-fails:%s" % SU.slug(exc.signature, 50), "the endpoint run (disable_endpoint_cache=%r) fails with %s while the local "
                      "run succeeds" % (cache_off, exc.signature), queries=list(ep.log)[:8])
@@ -1222,9 +1228,12 @@ def gen_C15(tier, rng):
         classes = U.dedup([o.iri for (s, p, o) in T if p == M.RDF_TYPE])
         props = U.dedup([p for (s, p, o) in T if p != M.RDF_TYPE])
         subjects = U.dedup([s.iri for (s, p, o) in T])
+        # sheXer's shape-map syntax allows exactly one '@' per line: a node selector never names an IRI containing '@' (mailto:)
+        selectable = [x for x in subjects if "@" not in x]
+        node_sel = ({"form": "node", "node": rng.choice(selectable)} if selectable else {"form": "focus-type", "cls": rng.choice(classes)})
         sels = [{"kind": "targets", "classes": [G.CLASS_A]}, {"kind": "all"}, {"kind": "targets", "classes": [G.CLASS_A, G.CLASS_B]},
                 {"kind": "shapemap", "items": [{"sel": {"form": "focus-type", "cls": rng.choice(classes)}, "label": U.ALT_SHAPES_NS + "L1"}]},
-                {"kind": "shapemap", "items": [{"sel": {"form": "node", "node": rng.choice(subjects)}, "label": U.ALT_SHAPES_NS + "L1"}]},
+                {"kind": "shapemap", "items": [{"sel": node_sel, "label": U.ALT_SHAPES_NS + "L1"}]},
                 {"kind": "shapemap", "items": [{"sel": {"form": "sparql-type", "cls": rng.choice(classes)}, "label": U.ALT_SHAPES_NS + "L1"}]}]
         if props:
             sels.append({"kind": "shapemap", "items": [{"sel": {"form": "focus-subj", "p": rng.choice(props)}, "label": U.ALT_SHAPES_NS + "L1"}]})
